@@ -120,6 +120,21 @@ pub fn sample_point(rng: &mut Rng, kind: Kind, n: usize) -> Pt {
     for v in z.iter_mut() {
         *v *= mag_z;
     }
+    // a slice with one point (or both) ON the cone's axis, i.e. a multiple of the identity element with an exactly
+    // zero tail - what unit initialisation and any problem with axis-only data produce
+    if kind == Kind::SOC && rng.bool(0.12) {
+        let which = rng.usize(0, 2);
+        if which != 1 {
+            for v in z.iter_mut().skip(1) {
+                *v = 0.0;
+            }
+        }
+        if which != 0 {
+            for v in s.iter_mut().skip(1) {
+                *v = 0.0;
+            }
+        }
+    }
     let (m1, s1) = vc::margin(&ct, &s, false);
     let (m2, s2) = vc::margin(&ct, &z, true);
     Pt { kind, n, len: s.len(), s, z, ms: m1 / s1, mz: m2 / s2 }
@@ -177,7 +192,34 @@ where
                 }
                 vc::mat_to_svec(n, &m)
             }
-            _ => (0..len).map(|_| rng.normal()).collect(),
+            _ => {
+                let mut v: Vec<f64> = (0..len).map(|_| rng.normal()).collect();
+                // structured arguments: exact zeros make inner products with the scaling point vanish exactly
+                // (zero tail, a single basis vector, the identity element, a random zero pattern)
+                if rng.bool(0.3) {
+                    match rng.usize(0, 3) {
+                        0 => v.iter_mut().skip(1).for_each(|t| *t = 0.0),
+                        1 => {
+                            let k = rng.usize(0, len - 1);
+                            let a = v[k];
+                            v.iter_mut().for_each(|t| *t = 0.0);
+                            v[k] = if a == 0.0 { 1.0 } else { a };
+                        }
+                        2 => {
+                            v = identity_elem(pt.kind, pt.n, len);
+                        }
+                        _ => v.iter_mut().for_each(|t| {
+                            if rng.bool(0.5) {
+                                *t = 0.0
+                            }
+                        }),
+                    }
+                    if v.iter().all(|t| *t == 0.0) {
+                        v[0] = 1.0;
+                    }
+                }
+                v
+            }
         }
     };
 
